@@ -245,14 +245,40 @@ func (engine *Engine) TakeSnapshot() error {
 	}
 
 	verifhook.Point("snap.begin")
-	// os.Create will replace the old manifest file
-	mf, err = os.Create(path.Join(dirname, "manifest.bin"))
+	// The state file is written first and the manifest, which names the latest snapshot, is replaced
+	// atomically afterwards: whenever the process dies, the manifest on disk points at a complete snapshot.
+
+	// Create snapshot directory
+	snapshotDirname := path.Join(engine.directory, "snapshots", fmt.Sprintf("%d", msec))
+	if err := os.MkdirAll(snapshotDirname, os.ModePerm); err != nil {
+		return err
+	}
+
+	verifhook.Point("snap.dir.created")
+	// Create snapshot file
+	f, err := os.OpenFile(path.Join(snapshotDirname, "state.bin"), os.O_WRONLY|os.O_CREATE|os.O_TRUNC, os.ModePerm)
 	if err != nil {
 		log.Println(err)
 		return err
 	}
 
-	// Write the latest manifest data
+	verifhook.Point("snap.state.created")
+	// Write state to file
+	if _, err = f.Write(out); err != nil {
+		_ = f.Close()
+		return err
+	}
+	verifhook.Point("snap.state.written")
+	if err = f.Sync(); err != nil {
+		log.Println(err)
+	}
+	verifhook.Point("snap.state.synced")
+	if err = f.Close(); err != nil {
+		log.Println(err)
+		return err
+	}
+
+	// Write the latest manifest data to a temporary file and move it over the old manifest file.
 	manifest = &Manifest{
 		LatestSnapshotHash:         md5.Sum(out),
 		LatestSnapshotMilliseconds: msec,
@@ -262,9 +288,15 @@ func (engine *Engine) TakeSnapshot() error {
 		log.Println(err)
 		return err
 	}
+	mf, err = os.Create(path.Join(dirname, "manifest.bin.tmp"))
+	if err != nil {
+		log.Println(err)
+		return err
+	}
 	verifhook.Point("snap.manifest.created")
 	if _, err = mf.Write(mo); err != nil {
 		log.Println(err)
+		_ = mf.Close()
 		return err
 	}
 	verifhook.Point("snap.manifest.written")
@@ -276,36 +308,11 @@ func (engine *Engine) TakeSnapshot() error {
 		return err
 	}
 	verifhook.Point("snap.manifest.closed")
-
-	// Create snapshot directory
-	dirname = path.Join(engine.directory, "snapshots", fmt.Sprintf("%d", msec))
-	if err := os.MkdirAll(dirname, os.ModePerm); err != nil {
-		return err
-	}
-
-	verifhook.Point("snap.dir.created")
-	// Create snapshot file
-	f, err := os.OpenFile(path.Join(dirname, "state.bin"), os.O_WRONLY|os.O_CREATE, os.ModePerm)
-	if err != nil {
+	if err = os.Rename(path.Join(dirname, "manifest.bin.tmp"), path.Join(dirname, "manifest.bin")); err != nil {
 		log.Println(err)
 		return err
 	}
-	defer func() {
-		if err := f.Close(); err != nil {
-			log.Println(err)
-		}
-	}()
-
-	verifhook.Point("snap.state.created")
-	// Write state to file
-	if _, err = f.Write(out); err != nil {
-		return err
-	}
-	verifhook.Point("snap.state.written")
-	if err = f.Sync(); err != nil {
-		log.Println(err)
-	}
-	verifhook.Point("snap.state.synced")
+	verifhook.Point("snap.manifest.renamed")
 
 	// Set the latest snapshot in unix milliseconds
 	engine.setLatestSnapshotTimeFunc(msec)
